@@ -733,6 +733,7 @@ def run(ctx):
     core.lean_stage(ctx, MODULE, FILE, drivers=["drv_sched"])
     from harness.props import _tie
     _tie.planner_tie(ctx)  # layer 3: queue_site_for_survey / add_to_surveys_done, translated from the current source, are guardRoutine / guardStationary / finish
+    _tie.estimate_tie(ctx)  # layer 3: crews of a method and the daily capacity estimate (ceil), translated over Q
     rng = ctx.rng
     witnesses(ctx)
     run_loop_cases(ctx, boundary_cases(), tag="boundary")
